@@ -77,3 +77,25 @@ fn d7_limit_below_held() {
     ga::disarm();
     assert!(r.is_err() && before == after, "arena acquired {} more bytes although it already held more than its limit", after - before);
 }
+
+/// D8 (C04): the reference returned by alloc_try_with must honour the arena's minimum alignment.
+#[test]
+fn d8_try_with_min_align() {
+    let b = Bump::<16>::with_min_align();
+    let r: Result<&mut u64, u32> = b.alloc_try_with(|| Ok(5u64));
+    let p = r.unwrap() as *mut u64 as usize;
+    assert_eq!(p % 16, 0, "alloc_try_with on Bump<16> returned {:#x}, not aligned to the minimum alignment", p);
+}
+
+/// D9 (C04): a fresh Bump<16> must serve (zero-sized) requests with 16-aligned pointers and must not
+/// panic; depends on where the linker put the static sentinel unless its type is 16-aligned.
+#[test]
+fn d9_fresh_arena_min_align_16() {
+    let b = Bump::<16>::with_min_align();
+    let r = std::panic::catch_unwind(std::panic::AssertUnwindSafe(|| {
+        let z = b.alloc_layout(Layout::from_size_align(0, 1).unwrap());
+        z.as_ptr() as usize
+    }));
+    let p = r.expect("allocation on a fresh Bump<16> panicked");
+    assert_eq!(p % 16, 0, "zero-sized allocation on a fresh Bump<16> not aligned to 16");
+}
